@@ -2512,8 +2512,14 @@ do_tproxy_wan_egress_tcp(struct __sk_buff *skb, __u32 link_h_len,
 		else
 			scratch->flag[1] = IpVersionType_6;
 		scratch->flag[6] = tuples->dscp;
-		if (pid_is_control_plane(skb, &pid_pname))
+		if (pid_is_control_plane(skb, &pid_pname)) {
+			/* A new connection of dae itself must not inherit the
+			 * cached routing of an earlier flow on the same 5-tuple:
+			 * only the SYN is recognised as dae's.
+			 */
+			bpf_map_delete_elem(&conn_state_map, &tuples->five);
 			return TC_ACT_OK;
+		}
 		if (pid_pname)
 			__builtin_memcpy(&scratch->flag[2], pid_pname->pname,
 					 TASK_COMM_LEN);
